@@ -18,7 +18,8 @@ VARIABLE l
 Reject(o, clause, detail) == PrintT(<<"REJECT", o.id, clause, ToString(detail)>>)
 
 Check(o) ==
-  LET e == Apply(o.rule, o.ts, o.a) IN
+  \* rule = "postprocess" is the latent-time post-processing step (postprocess_latent.py)
+  LET e == IF o.rule = "postprocess" THEN Postprocess(o.ts, o.a[1]) ELSE Apply(o.rule, o.ts, o.a) IN
   /\ IF o.res = ERR THEN Reject(o, "raise", e) ELSE TRUE
   /\ IF o.res # ERR /\ e # o.res THEN Reject(o, "apply", e) ELSE TRUE
   /\ IF o.a # o.a2 THEN Reject(o, "pure", o.a2) ELSE TRUE
